@@ -33,6 +33,14 @@ def build_source(fx, np, s, nw, nf, codes, shape, how):
         if shape == (): return big[1]
         x2 = fx.Fxp(np.array(codes).reshape(shape), s, nw, nf, raw=True)
         return x if len(shape) == 1 else x2
+    if how == 'u64list_raw':
+        # an object first built from a LIST of NumPy uint64 scalars (its value type comes from that carrier), then holding the codes by a raw write
+        n = len(codes)
+        x = fx.Fxp([np.uint64(1)] * max(n, 2), s, nw, nf)
+        if shape == (): x = x[0]; x.set_val(codes[0], raw=True)
+        elif len(shape) == 1 and n >= 2: x.set_val(np.array(codes), raw=True)
+        else: return fx.Fxp(np.array(codes).reshape(shape), s, nw, nf, raw=True)
+        return x
     raise ValueError(how)
 
 def convert(fx, np, src, route, ds, dnw, dnf, r, o):
@@ -112,7 +120,7 @@ def gen_case(rng, tier, small=None):
         dnf = nf + rng.choice([63, 64, 64, 65, 62]) - bl
         dnw = rng.choice([52, 48, max(1, dnf - 8), max(1, dnf - 4), max(1, dnf)]); dnw = max(1, min(52, dnw)); dnf = max(-8, min(dnw + 8, dnf))
     lsb = Fraction(2) ** (-nf)
-    builds = ['raw', 'float', 'indexed'] + (['int'] if all((c * lsb).denominator == 1 for c in codes) else [])
+    builds = ['raw', 'float', 'indexed', 'u64list_raw'] + (['int'] if all((c * lsb).denominator == 1 for c in codes) else [])
     return {'s': s, 'nw': nw, 'nf': nf, 'codes': codes, 'shape': list(shape), 'build': rng.choice(builds),
             'steps': [{'route': rng.choice(ROUTES), 'ds': ds, 'dnw': dnw, 'dnf': dnf, 'r': rng.choice(RMODES), 'o': rng.choice(OMODES)}]}
 
